@@ -58,8 +58,12 @@ func (it *pebbleIterator) Seek(key []byte) {
 	it.Iterator.SeekGE(key)
 }
 
+// SeekForPrev moves to the last key less than or equal to key (as rocksdb does).
+// SeekLT is exclusive, so seek below the immediate successor of key.
 func (it *pebbleIterator) SeekForPrev(key []byte) {
-	it.Iterator.SeekLT(key)
+	succ := make([]byte, len(key)+1)
+	copy(succ, key)
+	it.Iterator.SeekLT(succ)
 }
 
 func (it *pebbleIterator) SeekToFirst() {
